@@ -703,4 +703,6 @@ def run(ctx):
     ctx.guard(progress.run_files, ctx, prog, 'C14.R19', ['jsonrpc/proto.cpp', 'jsonrpc/protos/header_stream_proto.cpp', 'jsonrpc/protos/raw_stream_proto.cpp', 'jsonrpc/protos/packet_proto.cpp', 'jsonrpc/rpc.cpp', 'util/json.cpp', 'util/serializer.cpp', 'eventx/timeout_monitor_impl.hpp'], 'JSON-RPC receive path', floor=1)
     from rules import C14_replay
     ctx.guard(C14_replay.r20, ctx, prog)
+    from rules import C14_classify
+    ctx.guard(C14_classify.r21, ctx, prog)
     return prog
